@@ -59,8 +59,21 @@ def get_dimensionality(
         list: A list of clusters. Each entry in the list contains the indices
             of atoms in a cluster.
     """
+    # The neighbour search assumes that the atoms lie inside the cell: atoms
+    # stored several lattice vectors away would lose their bonds. Work on a
+    # copy in which atoms are moved back into the cell along the periodic
+    # directions by whole lattice vectors (the caller's system is not
+    # modified, atoms that are already inside the cell are left untouched).
+    pbc = system.get_pbc()
+    if pbc.any():
+        shifts = np.floor(system.get_scaled_positions(wrap=False) + 1e-7)
+        shifts[:, ~pbc] = 0
+        if shifts.any():
+            system = system.copy()
+            system.set_positions(
+                system.get_positions() - np.dot(shifts, system.get_cell())
+            )
     system_1x = system
-    pbc = system_1x.get_pbc()
     num_1x = system_1x.get_atomic_numbers()
     cell_1x = system_1x.get_cell()
 
